@@ -386,6 +386,11 @@ func TestVerifC02Server(t *testing.T) {
 			{Class: "rtlate", Method: http.MethodGet, N: 6, Timeout: short},
 			{Class: "conns", Method: http.MethodGet, N: 1},
 			{Class: "bytes", Method: http.MethodPost, N: 1},
+			{Class: "bytes-GET", Method: http.MethodGet, N: 1},
+			{Class: "bytes-PUT", Method: http.MethodPut, N: 1},
+			{Class: "bytes-PATCH", Method: http.MethodPatch, N: 1},
+			{Class: "bytes-DELETE", Method: http.MethodDelete, N: 1},
+			{Class: "bytes-OPTIONS", Method: http.MethodOptions, N: 1},
 			{Class: "keep", Method: http.MethodGet, N: 2},
 			{Class: "keeplate", Method: http.MethodGet, N: 2, Timeout: short},
 			{Class: "pv", Method: http.MethodGet, N: c02PanicAlphabetRoutes},
@@ -464,6 +469,14 @@ func TestVerifC02Server(t *testing.T) {
 				}
 			}
 			c02ScMaxBytes(c, lv.e, fresh, rt, n+1+r.Intn(100), true, r)
+			for _, meth := range []string{"GET", "PUT", "PATCH", "DELETE", "OPTIONS"} { // HEAD: a real client gets no body to compare
+				rm := lv.e.routes["bytes-"+meth][0]
+				for _, l := range []int{n, n + 1, n + 2 + r.Intn(3000)} {
+					if !c02ScMaxBytes(c, lv.e, fresh, rm, l, false, r) && m.ViolCount() > 0 {
+						return
+					}
+				}
+			}
 		})
 		sub("keepalive", func(r *rand.Rand) {
 			// one persistent connection: responses after a timeout / a panic must be intact
